@@ -29,6 +29,23 @@ var SharedLists = map[string][]string{
 	"L7": {"mit and isc", "licenseref-q", "MIT and ISC", "mit with bison-exception-2.2", "LicenseRef-Q"},
 }
 
+func init() {
+	// L9: 150 entries, every third one invalid in a different way; L9v: 150 valid single entries with repeats
+	bad := []string{"FOO", "MIT AND", "(", "", "mit and isc", "LicenseRef-", "GPL-2.0 +"}
+	good := []string{"MIT", "Zed", "ISC", "GPL-2.0+", "LicenseRef-a", "Apache-2.0-or-later", "mit", "0BSD", "Vim", "X11"}
+	var l9, l9v []string
+	for i := 0; i < 150; i++ {
+		if i%3 == 2 {
+			l9 = append(l9, bad[(i/3)%len(bad)])
+		} else {
+			l9 = append(l9, good[i%len(good)])
+		}
+		l9v = append(l9v, good[(i*7)%len(good)])
+	}
+	SharedLists["L9"] = l9
+	SharedLists["L9v"] = l9v
+}
+
 // Alphabet is the fixed call alphabet Σ of the history explorer.
 var Alphabet = []Call{
 	{Fn: "Satisfies", Expr: "MIT", List: "L4"},
@@ -71,6 +88,9 @@ var Alphabet = []Call{
 	// long expressions (> 16 tokens): buffers that are only pooled / cached above a size threshold
 	{Fn: "ExtractLicenses", Expr: "MIT AND ISC AND Zlib AND 0BSD AND Apache-2.0 AND BSD-3-Clause AND MPL-2.0 AND Unlicense AND X11 AND NTP AND W3C"},
 	{Fn: "Satisfies", Expr: "(Vim OR TCL OR Zed OR curl OR Ruby OR PHP-3.01 OR OFL-1.1 OR NCSA OR Libpng OR JSON) AND LicenseRef-a AND LGPL-2.1+", List: "L8"},
+	// a long list (work that is only split up / batched above a size threshold)
+	{Fn: "ValidateLicenses", List: "L9"},
+	{Fn: "Satisfies", Expr: "MIT AND Zed", List: "L9v"},
 }
 
 // instance lists: the slices actually passed (shared between calls that name the same list)
